@@ -308,4 +308,84 @@ theorem C17_gen_tie : Gen.Pdu.bleFirstOverhead = 7 ∧ Gen.Pdu.bleContOverhead =
     Gen.Pdu.coapFormats = ["<BBBHH", "<BBBH"] ∧ Gen.Pdu.contFlag = 128 ∧
     Gen.Pdu.coapControlMask = 14 ∧ Gen.Pdu.coapControlValue = 2 := by decide
 
+/-! ## CoAP batch REQUESTS: what the accessory receives for the i-th requested characteristic -/
+
+/-- a conformant accessory reading one request PDU off the front of a batch: (opcode, tid, iid, body) and the rest -/
+def reqReadOne (data : Bytes) : Option ((UInt8 × Nat × Nat × Bytes) × Bytes) :=
+  match data with
+  | _control :: op :: tid :: i0 :: i1 :: l0 :: l1 :: rest =>
+    let n := l0.toNat + 256 * l1.toNat
+    if rest.length < n then none
+    else some ((op, tid.toNat, i0.toNat + 256 * i1.toNat, rest.take n), rest.drop n)
+  | _ => none
+
+def reqReadAll : Nat → Bytes → Option (List (UInt8 × Nat × Nat × Bytes))
+  | 0, _ => none
+  | fuel + 1, data =>
+    if data = [] then some []
+    else match reqReadOne data with
+      | none => none
+      | some (r, rest) => (reqReadAll fuel rest).map (r :: ·)
+
+/-- `encode_all_pdus` from transaction id `k` on -/
+def encFrom (opcode : UInt8) (k : Nat) (items : List (Nat × Bytes)) : Bytes :=
+  ((items.zipIdx k).map fun ((iid, data), idx) => coapEncodeOne opcode idx iid data).flatten
+
+theorem encFrom_zero (opcode : UInt8) (items : List (Nat × Bytes)) : coapEncodeAll opcode items = encFrom opcode 0 items := rfl
+
+theorem reqReadOne_encode (op : UInt8) (tid iid : Nat) (body tail : Bytes) (ht : tid < 256) (hi : iid < 65536)
+    (hb : body.length < 65536) :
+    reqReadOne (coapEncodeOne op tid iid body ++ tail) = some ((op, tid, iid, body), tail) := by
+  simp only [coapEncodeOne, Pdu.le16b, List.cons_append, List.nil_append, List.append_assoc, reqReadOne,
+    le16b_val _ hb, le16b_val _ hi, toNat_ofNat_lt tid ht]
+  have h1 : ¬ (body ++ tail).length < body.length := by simp
+  simp [h1]
+
+/-- **CoAP, request side**: for every batch of (instance id, value) pairs - any number up to 256, any values - a
+    conformant accessory reading the emitted bytes receives exactly one request per item, in order, under transaction
+    ids k, k+1, ..., each carrying ITS OWN instance id and ITS OWN value: nothing is shifted, dropped or re-paired. -/
+theorem C17_coap_request_attribution (op : UInt8) : ∀ (items : List (Nat × Bytes)) (k fuel : Nat),
+    k + items.length ≤ 256 → (∀ it ∈ items, it.1 < 65536 ∧ it.2.length < 65536) → items.length < fuel →
+    reqReadAll fuel (encFrom op k items) =
+      some ((items.zipIdx k).map fun ((iid, data), idx) => (op, idx, iid, data)) := by
+  intro items
+  induction items with
+  | nil =>
+    intro k fuel _ _ hf
+    obtain ⟨f, rfl⟩ : ∃ f, fuel = f + 1 := ⟨fuel - 1, by simp at hf; omega⟩
+    simp [encFrom, reqReadAll]
+  | cons it items ih =>
+    intro k fuel hk hwf hf
+    obtain ⟨f, rfl⟩ : ∃ f, fuel = f + 1 := ⟨fuel - 1, by simp at hf; omega⟩
+    obtain ⟨iid, body⟩ := it
+    have hw := hwf (iid, body) (by simp)
+    have henc : encFrom op k ((iid, body) :: items) = coapEncodeOne op k iid body ++ encFrom op (k + 1) items := by
+      simp [encFrom, List.zipIdx_cons]
+    have hne : coapEncodeOne op k iid body ++ encFrom op (k + 1) items ≠ [] := by simp [coapEncodeOne]
+    rw [henc]
+    simp only [reqReadAll, hne, if_false,
+      reqReadOne_encode op k iid body _ (by simp at hk; omega) hw.1 hw.2]
+    rw [ih (k + 1) f (by simp at hk ⊢; omega) (fun x hx => hwf x (by simp [hx])) (by simp at hf; omega)]
+    simp [List.zipIdx_cons]
+
+/-- the public entry point `encode_all_pdus(opcode, iids, data)` zips its two lists: when the caller passes one value
+    per requested id (`write_characteristics`: the ids of ALL items and the values of ALL items) the accessory
+    receives, for the i-th requested characteristic, exactly the i-th value -/
+theorem C17_coap_write_batch (op : UInt8) (req : List (Nat × Bytes)) (hn : req.length ≤ 256)
+    (hwf : ∀ it ∈ req, it.1 < 65536 ∧ it.2.length < 65536) :
+    reqReadAll (req.length + 1) (coapEncodeAll op ((req.map (·.1)).zip (req.map (·.2)))) =
+      some ((req.zipIdx 0).map fun ((iid, data), idx) => (op, idx, iid, data)) := by
+  have hz : (req.map (·.1)).zip (req.map (·.2)) = req := by
+    induction req with
+    | nil => rfl
+    | cons x xs ih => simp [List.zip_cons_cons, ih (by simp at hn; omega) (fun y hy => hwf y (by simp [hy]))]
+  rw [hz, encFrom_zero]
+  exact C17_coap_request_attribution op req 0 _ (by omega) hwf (by omega)
+
+/-- what goes wrong when the two lists do NOT have one entry per requested item (a value list that skipped an item):
+    `zip` re-pairs the remaining values with the wrong instance ids and drops the last id - kernel-checked witness of
+    why the hypothesis matters -/
+example : reqReadAll 4 (coapEncodeAll 2 ([51, 50, 52].zip [[1], [25]])) =
+    some [(2, 0, 51, [1]), (2, 1, 50, [25])] := by decide
+
 end HapVerif.C17
